@@ -360,6 +360,17 @@ def rule_skip(ctx: Ctx) -> RuleReport:
                 pe_calls.append((fi, c))
     if len(pe_calls) < 3:
         raise AnalysisError(f"C09-SKIP: only {len(pe_calls)} call sites of _process_archive_entry (floor 3)")
+    # whatever the router sends back to read_archive is a nested archive, listed suffix or not (the router also knows suffixes through
+    # the MIME database: .taz, .tz)
+    sk = ctx.p.func(ARCH, "_should_skip_file")
+    ident = [i for i in walk_own(sk.node) if isinstance(i, ast.If) and isinstance(i.test, ast.Compare) and len(i.test.ops) == 1 and isinstance(i.test.ops[0], (ast.Is, ast.Eq))
+             and any(isinstance(x, ast.Name) and x.id == "read_archive" for x in ast.walk(i.test)) and any(isinstance(x, ast.Call) and "extractor" in (dotted(x.func) or "").lower() for x in ast.walk(i.test))
+             and i.body and isinstance(i.body[-1], ast.Return) and isinstance(i.body[-1].value, ast.Constant) and i.body[-1].value.value is True]
+    ident_ok = bool(ident)
+    if ident:
+        rep.ok({"_should_skip_file": "skips every member the router sends back to read_archive"})
+    else:
+        rep.fail(Finding("C09-SKIP", ARCH, sk.qual, "no routed-extractor test", "_should_skip_file recognises nested archives by a list of suffixes only; the router also accepts archive suffixes through the MIME database (.taz, .tz), and such a member is unpacked and its inner files returned", line=sk.node.lineno))
     for fi, c in pe_calls:
         rep.unit(fi.key)
         target_fi, target = fi, c
@@ -406,7 +417,7 @@ def rule_skip(ctx: Ctx) -> RuleReport:
         "nested": lambda t: "NESTED_ARCHIVE_EXTENSIONS" in t and "endswith" in t,
     }
     for k, pred in need.items():
-        if any(pred(t) for t in tests):
+        if any(pred(t) for t in tests) or (k == "nested" and ident_ok):
             rep.ok({"_should_skip_file": k})
         else:
             rep.fail(Finding("C09-SKIP", ARCH, sk.qual, k, f"the `{k}` clause vanished from _should_skip_file (tests: {tests})", line=sk.node.lineno))
@@ -414,7 +425,7 @@ def rule_skip(ctx: Ctx) -> RuleReport:
         if isinstance(n, ast.If) and not (isinstance(n.body[-1], ast.Return) and norm(n.body[-1]) == "return True"):
             rep.fail(Finding("C09-SKIP", ARCH, sk.qual, norm(n.test), "a skip clause no longer returns True", line=n.lineno))
     nested_loop = [n for n in walk_own(sk.node) if isinstance(n, ast.Assign) and norm(n.targets[0]) == "ext"]
-    if nested_loop and norm(nested_loop[0].value) != "basename.lower()":
+    if nested_loop and norm(nested_loop[0].value) != "basename.lower()" and not ident_ok:
         rep.fail(Finding("C09-SKIP", ARCH, sk.qual, norm(nested_loop[0]), "nested-archive suffixes are not matched against the lower-cased base name", line=nested_loop[0].lineno))
     # TABLE-AGREE: every spelling routed to read_archive is matched by the nested set
     reg = ctx.const(ROUTER, "_EXTRACTOR_REGISTRY")
@@ -428,10 +439,12 @@ def rule_skip(ctx: Ctx) -> RuleReport:
     for sp in sorted(spellings):
         if any(sp.endswith(n) for n in nested):
             rep.ok({"routed_spelling": sp, "matched_by_nested_set": True})
+        elif ident_ok:
+            rep.ok({"routed_spelling": sp, "matched_by": "the routed-extractor test (not in the suffix list)"})
         else:
             rep.fail(Finding("C09-SKIP", ARCH, "NESTED_ARCHIVE_EXTENSIONS", sp, f"a member named *{sp} is routed to the archive reader but not recognised as a nested archive: it is unpacked recursively", line=None))
     for n in sorted(nested):
-        if n != n.lower() or not n.startswith("."):
+        if (n != n.lower() or not n.startswith(".")) and not ident_ok:
             rep.fail(Finding("C09-SKIP", ARCH, "NESTED_ARCHIVE_EXTENSIONS", n, "nested-archive suffixes must be lower-case and start with a dot (they are matched against the lower-cased name)"))
     return rep
 
